@@ -155,6 +155,20 @@ pub fn run_case(c: &Sexp) -> Sexp {
                 ])
             })
         }
+        // (parse-list #text ...) -> (ok SCHEMA ...) | (err) | (panic)
+        "parse-list" => {
+            let mut texts = Vec::new();
+            for x in a {
+                match x.as_str_utf8() {
+                    Some(t) => texts.push(t),
+                    None => return Sexp::tag("not-utf8", vec![]),
+                }
+            }
+            guarded(|| match Schema::parse_list(texts.iter().map(|t| t.as_str())) {
+                Ok(v) => ok(v.iter().map(schema_to_sexp).collect()),
+                Err(_) => err(),
+            })
+        }
         // (parse-text #text) -> (not-json) | (obs JSON (ok SCHEMA)|(err)|(panic))
         "parse-text" => {
             let Some(txt) = a[0].as_str_utf8() else { return Sexp::tag("not-utf8", vec![]) };
